@@ -35,6 +35,10 @@ def gen_schedule(rng, kind, idx):
     sizes = {}
     p_big = {"fail": 0.25, "mixed": 0.08}.get(kind, 0.0)
     p_dup = 0.3
+    p_hot = 0.1
+    if kind == "hot":
+        # many overlapping transactions that all write one key: first committer wins (C04)
+        ncthreads, per, mem, vlen, p_dup, p_hot = rng.choice([3, 4, 6, 8]), rng.choice([1, 2, 3]), rng.choice([4096, 65536]), rng.choice([8, 24]), 0.1, 0.9
     if kind == "dup":
         # duplicated keys + rotations in the middle of batches + many concurrent committers
         ncthreads, per, mem, vlen, p_dup = rng.choice([6, 8, 10]), 3, rng.choice([1536, 2048]), rng.choice([24, 40, 60]), 0.8
@@ -49,7 +53,7 @@ def gen_schedule(rng, kind, idx):
                 flags += "d"
             if rng.random() < p_big:
                 flags += "b"
-            if rng.random() < 0.1:
+            if rng.random() < p_hot:
                 flags += "h"
             specs.append("%d.%d.%s" % (cid, n, flags or "-"))
             sizes[cid] = (n, flags)
@@ -232,8 +236,29 @@ def explore_model(specs):
 def analyse(s, a):
     """python oracle over the implementation's answers (independent of the model).
     -> dict(c05=[...violations], c17=[...], notes=[...], stats={...})"""
-    r = dict(c05=[], c17=[], notes=[], stats={})
+    r = dict(c05=[], c17=[], c04=[], notes=[], stats={})
     ev = events(a["trace"])
+    # ---- first committer wins on the hot key (C04): every transaction flagged `h` writes key "hot" after its
+    # begin; begin horizon = the sequence number loaded at txn.loaded; a commit that returned Ok with last
+    # sequence number L and begin horizon B must not overlap another Ok commit of the hot key with B < L' < L
+    begin_h, last_of, okc = {}, {}, set()
+    for (act, name, x, y, vis) in ev:
+        if act.startswith("c"):
+            c_ = int(act[1:])
+            if name == "txn.loaded":
+                begin_h[c_] = x
+            elif name == "commit.seq_allocated":
+                last_of[c_] = x + y - 1
+    for c_, (code, text) in a["rets"].items():
+        if code == 0 and "h" in s["sizes"].get(c_, (0, ""))[1] and c_ in last_of and c_ in begin_h:
+            okc.add(c_)
+    for c1 in sorted(okc):
+        for c2 in sorted(okc):
+            if c1 != c2 and begin_h[c1] < last_of[c2] < last_of[c1]:
+                r["c04"].append(("lost_update", "commits c%d (began at horizon %d, committed at seq %d) and c%d (committed at seq %d, i.e. after c%d began and before it "
+                                 "committed) both wrote key `hot` and both returned Ok" % (c1, begin_h[c1], last_of[c1], c2, last_of[c2], c1)))
+    hot_ok = len(okc)
+    hot_conf = sum(1 for c_, (code, text) in a["rets"].items() if code != 0 and "onflict" in text)
     # ---- facts from the trace
     seq_of, cnt_of, ret_at, ret_code, failed, enq = {}, {}, {}, {}, set(), set()
     applying, prev, rot_mid = set(), {}, set()
@@ -340,7 +365,8 @@ def analyse(s, a):
                       probe_reads_during_an_apply=n_obs_during_apply, stalls=a["points"].get("stall.wait", 0),
                       flushes=a["points"].get("task.mem.flushed", 0), compactions=a["points"].get("task.level.done", 0),
                       closes_mid_run=1 if re.search(r"x:\d", s["threads"]) else 0, hangs=1 if a["status"] == "HANG" else 0,
-                      panics=sum(1 for c in a["rets"].values() if c[0] == 2))
+                      panics=sum(1 for c in a["rets"].values() if c[0] == 2),
+                      hot_ok_commits=hot_ok, hot_conflicts=hot_conf)
     return r
 
 
